@@ -268,10 +268,21 @@ def ends10(msgs):
 # ------------------------------------------------------------------ generators: messages
 MB = ['\u00e9', '\u20ac', '\U0001F600', '\u00a0', '\u3000', '\u2028', '\u00df', '\u4e2d', '\U00010348']
 WS_ENDS = [' ', '\n', '\t', '\r\n', '\u00a0', '\u3000', '\u2028', '\x1f', '\x85', ' \n ']
+# Characters a decoder / reader might treat specially when they are the FIRST character of a text (for framing they are
+# characters of the message like any other: "text intact"): U+FEFF (byte order mark / zero width no-break space, octets
+# EF BB BF - legal in front of an XML document), other zero-width and format characters, non-characters, U+FFFD, line feeds.
+# None of them is white space for str.strip except the line feeds / U+001C.
+BOM = '\ufeff'
+FIRSTS_ZW = [BOM, '\u200b', '\u200c', '\u200d', '\u2060', '\u00ad', '\u180e', '\u061c', '\u202e', '\u200e', '\ufff9',
+             '\ufffd', '\ufffe', '\uffff', '\ufdd0', '\ufdef', '\U0001fffe', '\U0010ffff', '\U000e0001', '\u034f']
+FIRSTS_LF = ['\n', '\n\n', '\r\n', '\n \n', '\x0b\n', '\x1c\n']
+XML_DECLS = ['<?xml version="1.0" encoding="UTF-8"?>', '<?xml version="1.0"?>', '<?xml version="1.0" encoding="utf-8"?>\n']
+TINY_FIRST = [BOM + '<a/>', BOM, BOM + BOM + '<b/>', BOM + '<?xml version="1.0"?><n/>', '\n<l/>', '\n\n<l/>', '\u200b<m/>', '\u2060<w/>',
+              '\uffff<o/>', '\ufffe<p/>', '\ufdd0', BOM + '\n<q/>', '\n' + BOM + '<s/>', '<t/>' + BOM, '\U0010ffff<u/>', BOM + ' ']
 TINY = ['<a/>', '<ok/>', '<r>1</r>', '<a>\u00e9</a>', '<b>\u20ac</b>', '<c>\U0001F600</c>', '<d>x\u00a0</d>',
-        '<e>\u3000\u2028</e>', '<f a="1"/>', '<g>]</g>', '<h>&gt;</h>', '<i>]]</i>', '\u00a0<j/>\u2028', ' <k/>\n']
-MSG_KINDS_10 = ['ascii', 'mb', 'wsends', 'blank', 'brk', 'cdata', 'tiny']         # + 'long' (explicit jobs: the model is quadratic)
-MSG_KINDS_11 = ['ascii', 'mb', 'wsends', 'blank', 'cdata', 'delimlike', 'tiny']
+        '<e>\u3000\u2028</e>', '<f a="1"/>', '<g>]</g>', '<h>&gt;</h>', '<i>]]</i>', '\u00a0<j/>\u2028', ' <k/>\n'] + TINY_FIRST[:8]
+MSG_KINDS_10 = ['ascii', 'mb', 'wsends', 'blank', 'brk', 'cdata', 'tiny', 'first']         # + 'long' (explicit jobs: the model is quadratic)
+MSG_KINDS_11 = ['ascii', 'mb', 'wsends', 'blank', 'cdata', 'delimlike', 'tiny', 'first']
 
 def _body(rng, n, mb):
     out = []
@@ -287,6 +298,16 @@ def gen_message(rng, base, kind, mid=1, long_range=(5000, 12000)):
     """A message text (str). 1.0 texts never contain ]]> (so the only delimiter is the one the encoder adds)."""
     if kind == 'tiny':
         return rng.choice(TINY)
+    if kind == 'tiny_first':
+        return rng.choice(TINY_FIRST)
+    if kind == 'first':                         # the FIRST character is one a decoder / reader might drop or rewrite
+        r = rng.random()
+        first = BOM if r < 0.5 else rng.choice(FIRSTS_ZW) if r < 0.8 else rng.choice(FIRSTS_LF)
+        if rng.random() < 0.15: first = rng.choice([first + first, first + BOM, BOM + first, ' ' + first, first + ' '])
+        decl = rng.choice(XML_DECLS) if rng.random() < 0.5 else ''
+        doc = rng.choice(['<rpc-reply message-id="%d"><data>%s</data></rpc-reply>' % (mid, _body(rng, rng.randint(0, 20), True)), '<ok/>', '',
+                          BOM, 'x'])
+        return first + decl + doc + rng.choice(['', '', '\n', BOM, first])
     if kind == 'blank':
         return rng.choice(['', ' \n', ' ', '\n', '\t '])
     if kind == 'ascii':
@@ -337,8 +358,15 @@ def gen_xml_message(rng, base, mid):
     """a message whose root start tag an XML reader accepts (Session._dispatch_message drops anything else); the root's
     start tag may end anywhere: within the first characters or beyond 4096 / 8192 / 16384 / 32768 characters (kinds
     longtag: a long start tag; prolog: XML declaration / long comment / white space before the root)"""
-    k = rng.choice(['ascii', 'mb', 'mb', 'trail', 'look', 'big', 'longtag', 'prolog'])
+    k = rng.choice(['ascii', 'mb', 'mb', 'trail', 'look', 'big', 'longtag', 'prolog', 'first', 'first'])
     body = _body(rng, rng.randint(0, 30), k != 'ascii')
+    if k == 'first':
+        # the document begins with a byte order mark (U+FEFF, with or without an XML declaration after it - XML 1.0 4.3.3
+        # allows it, an XML reader skips it; for framing it is the first character of the text) or with line feeds
+        first = rng.choice([BOM, BOM, BOM, '\n', '\n\n', '\r\n'])
+        decl = rng.choice(XML_DECLS) if first == BOM and rng.random() < 0.6 else ''
+        s = '%s%s<rpc-reply message-id="%d"><data>%s%s</data></rpc-reply>%s' % (first, decl, mid, rng.choice(MB + [BOM]), body, rng.choice(['', '\n']))
+        return s.replace(']]>]]>', ']]> ]]>') if base == 10 else s
     if k == 'look' and base == 11:
         body += rng.choice(['\n##\n', '\n#3\n', '\n#3\nabc\n##\n', '<![CDATA[x]]>', '<![CDATA[]]>]]>']) + _body(rng, 4, True)
     if k == 'big':
